@@ -244,6 +244,7 @@ func TestSim(t *testing.T) {
 		if res.Stats.Leaked {
 			out.Leaked++
 		}
+		out.Unknown += res.Stats.PorcupineUnknown
 		for k, v := range res.Stats.Fired {
 			out.Fired[string(k)] += v
 		}
